@@ -215,7 +215,9 @@ def run(chk):
         if n:
             chk.fact("%s: lazily built package-level data is read only after the Once.Do that builds it has returned (program order, every path)" % fn_.replace("filippo.io/edwards25519", "ed"),
                      not bad, [fn_.split(" [")[0]], "effects", detail=str(bad[:3]))
-    chk.fact("lazily built package-level data found: %s (each written only under its own package-level Once)" % sorted(g.split(".")[-1] for g in guard), True, [], "effects")
+    multi = {g.split(".")[-1]: sorted(o.split(".")[-1] for o in v) for g, v in guard.items() if len(v) != 1}
+    chk.fact("lazily built package-level data found: %s; each is written under exactly one package-level Once (an object filled by the initialisers of two different Once values can be written twice, the second time after publication)"
+             % sorted(g.split(".")[-1] for g in guard), not multi, [], "effects", detail=str(multi))
     ops = {}
     for fn in fns:
         f = prog.fn(fn)
